@@ -342,6 +342,53 @@ fn twin_datetime(r: &mut Rng) {
     } }
 }
 
+
+// ---- zone-aware date-times with a fixed offset: everything acts on the wall-clock reading (C04) ----------------------------
+fn twin_zoned(r: &mut Rng) {
+    let xs = ndt_grid(r);
+    let offs = [0i32, 1, -1, 59, 3600, -3600, 19800, -12600, 86399, -86399, 13236, -13236];
+    let in_range = |u: NaiveDateTime| u >= NaiveDateTime::MIN && u <= NaiveDateTime::MAX;
+    for (i, &x) in xs.iter().enumerate() { for &o in offs.iter().skip(i % 3).step_by(3) {
+        let off = FixedOffset::east_opt(o).unwrap();
+        let z = off.from_utc_datetime(&x);
+        let wall = match x.checked_add_offset(off) { Some(w) => w, None => continue };     // wall-clock readings inside the nominal range
+        // a leap second on the very last day lies after NaiveDateTime::MAX; chrono's operations disagree on whether that is in range (not part of any contract here)
+        if x.time().nanosecond() >= 1_000_000_000 && x.year() >= 262141 { continue; }
+        // re-anchor a new wall-clock reading: instant = wall - offset, must stay in range
+        let back = |w: Option<NaiveDateTime>| w.and_then(|w| w.checked_sub_offset(off)).filter(|u| in_range(*u));
+        chk!("DateTime getters", (x, o), (z.year(), z.month(), z.day(), z.ordinal(), z.weekday(), z.hour(), z.minute(), z.second(), z.nanosecond()),
+             (wall.year(), wall.month(), wall.day(), wall.ordinal(), wall.weekday(), wall.hour(), wall.minute(), wall.second(), wall.nanosecond()));
+        chk!("DateTime::naive_local", (x, o), guard(|| z.naive_local()), Ok(wall));
+        for t in [NaiveTime::MIN, NaiveTime::from_hms_opt(23, 59, 59).unwrap(), NaiveTime::from_hms_opt(12, 0, 0).unwrap(), wall.time()] {
+            chk!("DateTime::with_time", (x, o, t), guard(|| z.with_time(t).single().map(|d| (d.naive_utc(), d.offset().local_minus_utc()))), Ok(back(Some(wall.date().and_time(t))).map(|u| (u, o))));
+        }
+        for v in [0u32, 1, 2, 12, 13, 28, 29, 30, 31, 32, 59, 60, 365, 366, 367, u32::MAX] {
+            chk!("DateTime::with_month", (x, o, v), guard(|| z.with_month(v).map(|d| d.naive_utc())), Ok(back(wall.with_month(v))));
+            chk!("DateTime::with_day", (x, o, v), guard(|| z.with_day(v).map(|d| d.naive_utc())), Ok(back(wall.with_day(v))));
+            chk!("DateTime::with_ordinal", (x, o, v), guard(|| z.with_ordinal(v).map(|d| d.naive_utc())), Ok(back(wall.with_ordinal(v))));
+            chk!("DateTime::with_hour", (x, o, v), guard(|| z.with_hour(v).map(|d| d.naive_utc())), Ok(back(wall.with_hour(v))));
+            chk!("DateTime::with_minute", (x, o, v), guard(|| z.with_minute(v).map(|d| d.naive_utc())), Ok(back(wall.with_minute(v))));
+            chk!("DateTime::with_second", (x, o, v), guard(|| z.with_second(v).map(|d| d.naive_utc())), Ok(back(wall.with_second(v))));
+        }
+        for y in [wall.year(), wall.year() + 1, wall.year() - 1, 2024, 2023, -262143, 262142, 262143, i32::MIN, i32::MAX] {
+            chk!("DateTime::with_year", (x, o, y), guard(|| z.with_year(y).map(|d| d.naive_utc())), Ok(back(wall.with_year(y))));
+        }
+        for n in [0u32, 1, 11, 12, 13, 24, 1200, i32::MAX as u32, i32::MAX as u32 + 1, u32::MAX] {
+            let m = chrono::Months::new(n);
+            let want = if n == 0 { Some(x) } else { back(wall.checked_add_months(m)) };
+            chk!("DateTime::checked_add_months", (x, o, n), guard(|| z.checked_add_months(m).map(|d| d.naive_utc())), Ok(want));
+            let want = if n == 0 { Some(x) } else { back(wall.checked_sub_months(m)) };
+            chk!("DateTime::checked_sub_months", (x, o, n), guard(|| z.checked_sub_months(m).map(|d| d.naive_utc())), Ok(want));
+        }
+        for k in [0u64, 1, 2, 7, 365, 366, 146_097, u64::MAX] {
+            // results must stay within MIN_UTC..=MAX_UTC; a leap second on the last day is refused by design
+            let f = |w: Option<NaiveDateTime>| if k == 0 { Some(x) } else { back(w) };
+            chk!("DateTime::checked_add_days", (x, o, k), guard(|| z.checked_add_days(Days::new(k)).map(|d| d.naive_utc())), Ok(f(wall.checked_add_days(Days::new(k)))));
+            chk!("DateTime::checked_sub_days", (x, o, k), guard(|| z.checked_sub_days(Days::new(k)).map(|d| d.naive_utc())), Ok(f(wall.checked_sub_days(Days::new(k)))));
+        }
+    } }
+}
+
 fn twin_round(r: &mut Rng) {
     let mut xs: Vec<NaiveDateTime> = vec![];
     for s in [-9_223_372_036i64, -9_223_372_035, 9_223_372_036, 9_223_372_035, 0, -1, 1, 86399, -86400, 1_700_000_000, -1_700_000_000, -9_223_372_037, 9_223_372_037, 253_402_300_799] { for n in [0u32, 1, 499_999_999, 500_000_000, 500_000_001, 999_999_999, 145_224_192, 854_775_807] { if let Some(d) = DateTime::from_timestamp(s, n) { xs.push(d.naive_utc()); } } }
@@ -392,7 +439,8 @@ fn main() {
         "datetime" => twin_datetime(&mut r),
         "round" => twin_round(&mut r),
         "week" => twin_week(&mut r),
-        _ => { twin_timedelta(&mut r); twin_date(&mut r); twin_iters(&mut r); twin_time(&mut r); twin_datetime(&mut r); twin_round(&mut r); twin_week(&mut r); }
+        "zoned" => twin_zoned(&mut r),
+        _ => { twin_timedelta(&mut r); twin_date(&mut r); twin_iters(&mut r); twin_time(&mut r); twin_datetime(&mut r); twin_round(&mut r); twin_week(&mut r); twin_zoned(&mut r); }
     }
     unsafe { println!("DONE {} cases={} found={}", unit, CASES, FOUND); }
 }
